@@ -202,6 +202,10 @@ class CLI:
                 except MosRoMgrException as e:
                     sys.stderr.write(f"{file}: Invalid\n")
                     continue
+                except OSError as e:
+                    # missing path, directory, unreadable file: carry on with the others
+                    sys.stderr.write(f"{file}: Invalid ({e.strerror})\n")
+                    continue
                 self.detect_file(mo, file)
                 if inspect:
                     mo.inspect()
